@@ -123,6 +123,19 @@ def check_regexes(ctx, api, text, fnames, res):
                              fid)
 
 
+class ErrWM(WM.WcMatch):
+    """WcMatch that remembers what reached on_error."""
+
+    def on_init(self, **kw):
+        self.errors = []
+
+    def on_error(self, base, name):
+        import sys
+        et, ev, _tb = sys.exc_info()
+        self.errors.append((os.path.join(base, name), et.__name__ if et else 'unknown', repr(ev)[:120]))
+        return None
+
+
 def exercise(ctx, text, fnames, root, as_bytes):
     fnf = tuple(f for f in fnames if f in FN_FLAGS)
     glf = tuple(f for f in fnames if f in GL_FLAGS)
@@ -169,9 +182,22 @@ def exercise(ctx, text, fnames, root, as_bytes):
             wmf |= WM_FLAGS[f]
     if len(text) % 2:
         wmf |= WM.RECURSIVE | WM.FILEPATHNAME | WM.DIRPATHNAME | WM.HIDDEN
-    w = call(ctx, 'WcMatch', pat, fnames, WM.WcMatch, rootx, pat, pat, wmf)
+    # the same pattern inside a list / tuple (sequence plumbing: defaults and types are derived from the elements)
+    call(ctx, 'fnmatch.fnmatch([p])', pat, fnf, F.fnmatch, names[1], [pat], flags=ff)
+    call(ctx, 'fnmatch.filter((p,))', pat, fnf, F.filter, names, (pat,), flags=ff)
+    check_regexes(ctx, 'fnmatch.translate([p, p])', pat, fnf, call(ctx, 'fnmatch.translate([p, p])', pat, fnf, F.translate, [pat, pat], flags=ff))
+    call(ctx, 'glob.globmatch([p])', pat, glf, G.globmatch, names[3], [pat], flags=gf)
+    call(ctx, 'glob.globfilter((p, p))', pat, glf, G.globfilter, names, (pat, pat), flags=gf)
+    check_regexes(ctx, 'glob.translate((p,))', pat, glf, call(ctx, 'glob.translate((p,))', pat, glf, G.translate, (pat,), flags=gf))
+    call(ctx, 'glob.glob([p])', pat, glf, G.glob, [pat], flags=gf, root_dir=rootx)
+    w = call(ctx, 'WcMatch', pat, fnames, ErrWM, rootx, pat, pat, wmf)
     if w is not None:
         call(ctx, 'WcMatch.match', pat, fnames, w.match)
+        if w.errors:
+            # the files of the tree are all readable: an exception inside the comparison is a crash that WcMatch hides
+            ctx.disagree(f'WcMatch routed {w.errors[0][1]} raised while matching to on_error',
+                         {'api': 'WcMatch', 'pattern': text if not as_bytes else {'__bytes__': text}, 'flags': list(fnames),
+                          'file': repr(w.errors[0][0]), 'exception': w.errors[0][2]})
     if not as_bytes:
         pf = gf & PATHLIB_MASK
         plf = tuple(f for f in glf if FLAGN[f] & PATHLIB_MASK)
